@@ -6,7 +6,8 @@ import typing
 
 from mashumaro import DataClassDictMixin
 from mashumaro.codecs.basic import BasicDecoder
-from mashumaro.config import BaseConfig
+from mashumaro.config import ADD_DIALECT_SUPPORT, BaseConfig
+from mashumaro.dialect import Dialect
 from mashumaro.exceptions import MissingDiscriminatorError, SuitableVariantNotFoundError, InvalidFieldValue
 from mashumaro.types import Discriminator
 
@@ -24,10 +25,20 @@ class S_:
     pass
 
 
+class DX(Dialect):
+    pass
+
+
 class Family:
-    def __init__(self, style, supertypes=False, tagger=False, mixin=True, fmt=None, predef=False):
+    def __init__(self, style, supertypes=False, tagger=False, mixin=True, fmt=None, predef=False, dialect=None, two=False,
+                 cross=False):
+        """style: config | annotated | codec | nested (Config discriminator on the root, holder field typed with the bare root).
+        dialect: None | 'always' | 'alt' (every / every other call passes dialect=DX; classes that can get ADD_DIALECT_SUPPORT).
+        two: the holder has a second discriminated field with ANOTHER tagger function, declared first.
+        cross: the holder is an ORJSON mixin and calls alternate between from_dict and from_json."""
         self.style, self.supertypes, self.tagger, self.mixin, self.fmt = style, supertypes, tagger, mixin, fmt
-        self.predef = predef
+        self.predef, self.dialect, self.two, self.cross = predef, dialect, two, cross
+        self.calls = 0
         self.classes = {}
         bases = (DataClassDictMixin,) if mixin else ()
         if fmt == "json":
@@ -40,18 +51,37 @@ class Family:
         fn = (lambda cls: cls.__name__.lower()) if tagger else None
         self.disc = Discriminator(field="type", include_subtypes=True, include_supertypes=supertypes, variant_tagger_fn=fn)
         ns = {"type": "base", "__qualname__": "Base", "__module__": __name__}
-        if style == "config":
-            ns["Config"] = type("Config", (BaseConfig,), {"discriminator": Discriminator(
-                field="type", include_subtypes=True, variant_tagger_fn=fn)})
+        cfg = {}
+        if dialect:
+            cfg["code_generation_options"] = [ADD_DIALECT_SUPPORT]
+        if style in ("config", "nested"):
+            ns["Config"] = type("Config", (BaseConfig,), dict(cfg, discriminator=Discriminator(
+                field="type", include_subtypes=True, variant_tagger_fn=fn)))
         self.classes["Base"] = dataclasses.make_dataclass("Base", [("x", int)], bases=bases, namespace=ns, module=__name__)
         globals()["Base"] = self.classes["Base"]
         self.holder = None
         self.decoder = None
-        if style == "annotated":
-            ann = typing.Annotated[self.classes["Base"], self.disc]
+        if style in ("annotated", "nested"):
+            ann = typing.Annotated[self.classes["Base"], self.disc] if style == "annotated" else self.classes["Base"]
             globals()["Holder"] = None
-            self.holder = dataclasses.make_dataclass("Holder", [("v", ann)], bases=(self.bases or (DataClassDictMixin,)), module=__name__,
-                                                     namespace={"__qualname__": "Holder", "__module__": __name__})
+            hbases = self.bases or (DataClassDictMixin,)
+            if cross:
+                from mashumaro.mixins.orjson import DataClassORJSONMixin
+                hbases = (DataClassORJSONMixin,)
+            fields = [("v", ann)]
+            if two:
+                other = Discriminator(field="type", include_subtypes=True, variant_tagger_fn=lambda cls: cls.__name__.upper())
+                fields = [("v", ann), ("u", typing.Optional[typing.Annotated[self.classes["Base"], other]],
+                                       dataclasses.field(default=None))]
+            hns = {"__qualname__": "Holder", "__module__": __name__}
+            if cfg:
+                hns["Config"] = type("Config", (BaseConfig,), dict(cfg))
+            if two:
+                # the field with the other tagger is declared FIRST (kw_only lets the defaulted field precede)
+                self.holder = dataclasses.make_dataclass("Holder", [fields[1], fields[0]], bases=hbases, module=__name__,
+                                                         namespace=hns, kw_only=True)
+            else:
+                self.holder = dataclasses.make_dataclass("Holder", fields, bases=hbases, module=__name__, namespace=hns)
             globals()["Holder"] = self.holder
 
     def define(self, name):
@@ -64,20 +94,28 @@ class Family:
         globals()[name] = self.classes[name]
 
     def make_decoder(self):
-        self.decoder = BasicDecoder(typing.Annotated[self.classes["Base"], self.disc])
+        self.decoder = BasicDecoder(typing.Annotated[self.classes["Base"], self.disc], default_dialect=DX if self.dialect else None)
 
     def decode(self, d):
+        self.calls += 1
+        kw = {}
+        if self.dialect == "always" or (self.dialect == "alt" and self.calls % 2 == 1):
+            kw["dialect"] = DX
+        ident = lambda x: x
+        if self.cross:
+            if self.calls % 2 == 1:
+                return self.holder.from_dict({"v": d}, **kw).v
+            return self.holder.from_json({"v": d}, decoder=ident, **kw).v
         if self.fmt:
             meth = {"json": "from_json", "msgpack": "from_msgpack"}[self.fmt]
-            ident = lambda x: x
             if self.style == "config":
-                return getattr(self.classes["Base"], meth)(d, decoder=ident)
-            if self.style == "annotated":
-                return getattr(self.holder, meth)({"v": d}, decoder=ident).v
+                return getattr(self.classes["Base"], meth)(d, decoder=ident, **kw)
+            if self.style in ("annotated", "nested"):
+                return getattr(self.holder, meth)({"v": d}, decoder=ident, **kw).v
         if self.style == "config":
-            return self.classes["Base"].from_dict(d)
-        if self.style == "annotated":
-            return self.holder.from_dict({"v": d}).v
+            return self.classes["Base"].from_dict(d, **kw)
+        if self.style in ("annotated", "nested"):
+            return self.holder.from_dict({"v": d}, **kw).v
         if self.decoder is None:
             self.make_decoder()
         return self.decoder.decode(d)
@@ -92,7 +130,7 @@ class Family:
         if tag is None:
             return ("missing",)
         elig = [self.classes[n] for n in ORDER if n in self.classes]
-        if self.supertypes and self.style != "config":
+        if self.supertypes and self.style not in ("config", "nested"):
             elig.append(self.classes["Base"])
         hit = [c for c in elig if self.tag_of(c) == tag and type(self.tag_of(c)) is type(tag)]
         if len(hit) == 1:
@@ -109,7 +147,7 @@ def observe(fam, tag, x):
         d["type"] = tag
     st, r = call(fam.decode, d)
     want = fam.expected(tag)
-    if st == "exc" and isinstance(r, InvalidFieldValue) and fam.style == "annotated":
+    if st == "exc" and isinstance(r, InvalidFieldValue) and fam.style in ("annotated", "nested"):
         r = r.__context__ or r.__cause__ or r  # the holder wraps the variant lookup failure
     if want[0] == "ok":
         if st != "ok":
@@ -166,10 +204,12 @@ def make_input_plan(T, variant, k=3, **kw):
     return ctx, HistInput(ctx, k)
 
 
-def setup(T, NODE, CTX, variant, k=3, style="config", supertypes=False, tagger=False, mixin=True, fmt=None, predef=False):
+def setup(T, NODE, CTX, variant, k=3, style="config", supertypes=False, tagger=False, mixin=True, fmt=None, predef=False,
+          dialect=None, two=False, cross=False):
     S = S_()
     S.node, S.ctx, S.variant = NODE, CTX, variant
-    S.fam_args = dict(style=style, supertypes=supertypes, tagger=tagger, mixin=mixin, fmt=fmt, predef=predef)
+    S.fam_args = dict(style=style, supertypes=supertypes, tagger=tagger, mixin=mixin, fmt=fmt, predef=predef, dialect=dialect,
+                      two=two, cross=cross)
     return S
 
 
@@ -209,6 +249,7 @@ def hist_main(S, env):
     if info and fam.expected(info[0])[0] == "ok":
         # the last decode once more, traced, with a symbolic payload (everything it needs is compiled by now); error
         # outcomes were already compared untraced (raising them traced with a symbolic payload trips CrossHair)
+        fam.calls -= 1  # same call parity (dialect / entry point) as the untraced run: nothing is compiled under tracing
         bad = observe(fam, info[0], env[S.node.x])
         if bad:
             return fail("C12/%s" % bad, events=events, traced=True)
